@@ -3,10 +3,110 @@
 use crate::ctx::{guarded, Ctx, Tier};
 use crate::docs;
 use crate::Check;
+use crate::gdyn::{Shape, Variant};
+use refmodel::decode::{decode, Verdict};
 use refmodel::rng::{hash_bytes, Rng};
+use refmodel::rval::RVal;
+use serde::de::DeserializeSeed;
 use std::str::FromStr;
 
 pub struct C15;
+
+/// Walk `shape` and `tree` in parallel to a random scalar leaf and replace the leaf's shape by one
+/// that cannot accept the value. Returns the key path (table keys only), the candidate span ids of
+/// the offending value (see c14::expected_spans) and whether an enum variant key lies on the path.
+fn plant(rng: &mut Rng, shape: &mut Shape, tree: &RVal, keys: &mut Vec<String>, ids: &mut Vec<String>, saw_variant: &mut bool) -> bool {
+    use crate::c14::{join, SEP};
+    let push_ids = |ids: &mut Vec<String>, f: &dyn Fn(&str) -> Vec<String>| {
+        let mut out = Vec::new();
+        for i in ids.iter() {
+            out.extend(f(i));
+        }
+        *ids = out;
+    };
+    match (shape, tree) {
+        (Shape::Opt(inner), t) => plant(rng, inner, t, keys, ids, saw_variant),
+        (Shape::Newtype(_, inner), t) => plant(rng, inner, t, keys, ids, saw_variant),
+        (Shape::Struct(_, fields), RVal::Table(t)) => {
+            let present: Vec<usize> = (0..fields.len()).filter(|i| t.get(fields[*i].0).is_some()).collect();
+            if present.is_empty() {
+                return false;
+            }
+            let i = present[rng.below(present.len())];
+            let name = fields[i].0;
+            keys.push(name.to_string());
+            push_ids(ids, &|b| vec![join(b, name)]);
+            plant(rng, &mut fields[i].1, t.get(name).unwrap(), keys, ids, saw_variant)
+        }
+        (Shape::Map(_, inner), RVal::Table(t)) => {
+            if t.entries.is_empty() {
+                return false;
+            }
+            // every value shares the shape: the first entry in document order fails first
+            let (k, v) = &t.entries[0];
+            keys.push(k.clone());
+            push_ids(ids, &|b| vec![join(b, k)]);
+            // changing the shared shape makes the first entry (in the deserializer's order) fail
+            let mut probe = (**inner).clone();
+            if !plant(rng, &mut probe, v, keys, ids, saw_variant) {
+                return false;
+            }
+            // only safe when there is one entry (otherwise another entry may be visited first)
+            if t.entries.len() != 1 {
+                return false;
+            }
+            **inner = probe;
+            true
+        }
+        (Shape::Enum(_, vs), RVal::Table(t)) => {
+            if t.entries.len() != 1 {
+                return false;
+            }
+            let (k, v) = &t.entries[0];
+            for (name, var) in vs.iter_mut() {
+                if *name == k.as_str() {
+                    if let Variant::Newtype(inner) = var {
+                        *saw_variant = true;
+                        keys.push(k.clone());
+                        push_ids(ids, &|b| vec![join(b, k)]);
+                        return plant(rng, inner, v, keys, ids, saw_variant);
+                    }
+                }
+            }
+            false
+        }
+        (Shape::Seq(inner), RVal::Array(a)) => {
+            if a.len() != 1 {
+                return false;
+            }
+            push_ids(ids, &|b| vec![format!("{b}{SEP}[0]"), format!("{b}{SEP}#0")]);
+            plant(rng, inner, &a[0], keys, ids, saw_variant)
+        }
+        (Shape::Tuple(ss), RVal::Array(a)) | (Shape::TupleStruct(_, ss), RVal::Array(a)) => {
+            if ss.is_empty() || ss.len() != a.len() {
+                return false;
+            }
+            let i = rng.below(ss.len());
+            push_ids(ids, &|b| vec![format!("{b}{SEP}[{i}]"), format!("{b}{SEP}#{i}")]);
+            plant(rng, &mut ss[i], &a[i], keys, ids, saw_variant)
+        }
+        (leaf, value) => {
+            let wrong = match value {
+                RVal::Int(_) => Shape::Bool,
+                RVal::Str(_) => Shape::I64,
+                RVal::Float(_) => Shape::Str,
+                RVal::Bool(_) => Shape::Str,
+                RVal::Dt(_) => Shape::I64,
+                _ => return false,
+            };
+            if matches!(leaf, Shape::Enum(..)) && !matches!(value, RVal::Str(_)) {
+                return false;
+            }
+            *leaf = wrong;
+            true
+        }
+    }
+}
 
 /// 1-based (line, column) of byte offset `p`, counting characters; for p == len the position of
 /// the last character advanced by one column; (1, 1) for the empty text.
@@ -159,6 +259,149 @@ impl C15 {
     }
 }
 
+impl C15 {
+    /// fixed planted cases for shapes the inference never builds (tuple and struct variants)
+    fn planted_variants(&mut self, ctx: &mut Ctx) {
+        use crate::gdyn::Variant as V;
+        let e_struct = Shape::Enum("E", vec![("U", V::Unit), ("S", V::Struct(vec![("a", Shape::I64), ("b", Shape::Opt(Box::new(Shape::Str)))]))]);
+        let e_tuple = Shape::Enum("E", vec![("U", V::Unit), ("T", V::Tuple(vec![Shape::I64, Shape::Str]))]);
+        let e_new = Shape::Enum("E", vec![("U", V::Unit), ("N", V::Newtype(Box::new(Shape::I64)))]);
+        let cases: Vec<(&str, Shape, &str, &str)> = vec![
+            ("e = { S = { a = \"x\" } }\n", Shape::Struct("R", vec![("e", e_struct.clone())]), "e.S.a", "enum-struct-variant-key"),
+            ("[e.S]\na = \"x\"\n", Shape::Struct("R", vec![("e", e_struct.clone())]), "e.S.a", "enum-struct-variant-key"),
+            ("v = [ { S = { a = true } } ]\n", Shape::Struct("R", vec![("v", Shape::Seq(Box::new(e_struct)))]), "v.S.a", "enum-struct-variant-key"),
+            ("e = { T = [ \"x\", \"y\" ] }\n", Shape::Struct("R", vec![("e", e_tuple.clone())]), "e.T", "enum-variant-key"),
+            ("[e]\nT = [ 1, 2 ]\n", Shape::Struct("R", vec![("e", e_tuple)]), "e.T", "enum-variant-key"),
+            ("e = { N = \"x\" }\n", Shape::Struct("R", vec![("e", e_new.clone())]), "e.N", "enum-variant-key"),
+            ("[[v]]\nN = true\n", Shape::Struct("R", vec![("v", Shape::Seq(Box::new(e_new)))]), "v.N", "enum-variant-key"),
+        ];
+        for (text, shape, path, class) in cases {
+            ctx.eval();
+            ctx.set_input(&format!("{text:?} into {shape:?}"));
+            ctx.nontrivial(hash_bytes(format!("{text}{path}").as_bytes()));
+            let r = guarded(|| {
+                toml_edit::DocumentMut::from_str(text)
+                    .map_err(|e| e.to_string())
+                    .and_then(|doc| (&shape).deserialize(toml_edit::de::Deserializer::from(doc)).map(|_| ()).map_err(|e| e.to_string()))
+            });
+            match r {
+                Err((loc, msg)) => ctx.violation(&format!("panic:{}", crate::short_loc(&loc)), format!("planted variant case panicked at {loc}: {msg}")),
+                Ok(Ok(())) => ctx.violation("mismatch-accepted", format!("planted case {text:?} decodes although `{path}` mismatches")),
+                Ok(Err(rendered)) => {
+                    ctx.count("mismatch/planted-variant-cases");
+                    let want = format!("in `{path}`");
+                    if !rendered.trim_end().ends_with(&want) {
+                        ctx.violation(&format!("mismatch-key-path-differs:{class}"), format!("decoding {text:?} from a DocumentMut: the error is {rendered:?}, the offending value sits at {want:?}"));
+                    }
+                }
+            }
+        }
+    }
+
+    /// a valid document decoded into a type that mismatches at one planted path
+    fn mismatch(&mut self, ctx: &mut Ctx, rng: &mut Rng) {
+        if ctx.cur_index == 0 {
+            self.planted_variants(ctx);
+        }
+        ctx.eval();
+        let text = if rng.chance(1, 3) {
+            let c = docs::corpus();
+            let valid: Vec<&refmodel::corpus::CorpusFile> = c.iter().filter(|f| f.valid).collect();
+            String::from_utf8_lossy(&valid[rng.below(valid.len())].bytes).into_owned()
+        } else {
+            let mut cfg = refmodel::gen::GenCfg::random(rng);
+            cfg.bom = false;
+            refmodel::gen::gen_doc(rng, cfg).text
+        };
+        ctx.set_input(&text);
+        let d = decode(&text);
+        if d.verdict != Verdict::Valid || d.tree_nl.is_some() {
+            return;
+        }
+        let tree = d.tree.as_ref().unwrap();
+        let (mut shape, _) = crate::c13::infer(rng, tree, 0);
+        let mut keys = Vec::new();
+        let mut ids = vec![String::new()];
+        let mut saw_variant = false;
+        if !plant(rng, &mut shape, tree, &mut keys, &mut ids, &mut saw_variant) {
+            ctx.count("mismatch/not-plantable");
+            return;
+        }
+        let spans = crate::c14::expected_spans(&d);
+        let want_span: Option<(usize, usize)> = ids.iter().find_map(|i| spans.value_span.get(i).copied());
+        let r = guarded(|| {
+            let from_text = (&shape).deserialize(toml::de::Deserializer::new(&text)).map(|_| ()).map_err(|e| (e.message().to_string(), e.span(), e.to_string()));
+            let from_edit = toml_edit::de::Deserializer::from_str(&text)
+                .map_err(|e| (e.message().to_string(), e.span(), e.to_string()))
+                .and_then(|de| (&shape).deserialize(de).map(|_| ()).map_err(|e| (e.message().to_string(), e.span(), e.to_string())));
+            let from_doc = toml_edit::DocumentMut::from_str(&text)
+                .map_err(|e| (e.message().to_string(), e.span(), e.to_string()))
+                .and_then(|doc| (&shape).deserialize(toml_edit::de::Deserializer::from(doc)).map(|_| ()).map_err(|e| (e.message().to_string(), e.span(), e.to_string())));
+            (from_text, from_edit, from_doc)
+        });
+        let (from_text, from_edit, from_doc) = match r {
+            Ok(x) => x,
+            Err((loc, msg)) => {
+                ctx.violation(&format!("panic:{}", crate::short_loc(&loc)), format!("decoding into a mismatching type panicked at {loc}: {msg}"));
+                return;
+            }
+        };
+        ctx.nontrivial(hash_bytes(format!("{text}{keys:?}").as_bytes()));
+        ctx.count(&format!("mismatch/path-length-{}", keys.len().min(4)));
+        if saw_variant {
+            ctx.count("mismatch/through-enum-variant");
+        }
+        for (route, res) in [("toml::de::Deserializer", &from_text), ("toml_edit::de::Deserializer::from_str", &from_edit)] {
+            match res {
+                Ok(()) => ctx.violation("mismatch-accepted", format!("{route}: decoding succeeded although the value at `{}` cannot be a {:?}", keys.join("."), "planted type")),
+                Err((msg, span, rendered)) => {
+                    ctx.count("mismatch/text-errors");
+                    if msg.trim().is_empty() {
+                        ctx.violation("empty-error-message:type-mismatch", format!("{route}: empty message; rendered {rendered:?}"));
+                    }
+                    match (span, want_span) {
+                        (Some(s), Some((a, b))) => {
+                            if s.start != a || s.end != b {
+                                ctx.violation("mismatch-span-differs", format!("{route}: the error for the value at `{}` has span {s:?}; the value's source text is at {:?} ({:?})", keys.join("."), (a, b), &text[a..b]));
+                            } else {
+                                ctx.count("mismatch/span-exact");
+                            }
+                        }
+                        (None, _) => ctx.violation("mismatch-without-span", format!("{route}: a type-mismatch error from text has no span (value at `{}`): {msg}", keys.join("."))),
+                        (Some(_), None) => ctx.count("mismatch/span-unchecked (value id not found)"),
+                    }
+                    let v = ErrView { route, message: msg.clone(), span: span.clone(), rendered: rendered.clone(), debug_len: 0 };
+                    judge_error(ctx, &text, &v);
+                }
+            }
+        }
+        match &from_doc {
+            Ok(()) => ctx.violation("mismatch-accepted", format!("from a DocumentMut: decoding succeeded although the value at `{}` mismatches", keys.join("."))),
+            Err((msg, span, rendered)) => {
+                ctx.count("mismatch/document-errors");
+                if span.is_some() {
+                    ctx.violation("stale-span-from-editable-document", format!("decoding from a DocumentMut gave an error with span {span:?}"));
+                }
+                if msg.trim().is_empty() {
+                    ctx.violation("empty-error-message:type-mismatch", format!("from DocumentMut: empty message; rendered {rendered:?}"));
+                }
+                let want = format!("in `{}`", keys.join("."));
+                // keys may contain line breaks: compare the tail of the rendering, not its last line
+                let tail_ok = rendered.trim_end_matches('\n').ends_with(&want) && (rendered.trim_end_matches('\n').len() == want.len() || rendered.trim_end_matches('\n')[..rendered.trim_end_matches('\n').len() - want.len()].ends_with('\n'));
+                let last = rendered.trim_end().lines().last().unwrap_or("");
+                if keys.is_empty() {
+                    // nothing to name
+                } else if !tail_ok {
+                    let sig = if saw_variant { "mismatch-key-path-differs:enum-variant-key" } else { "mismatch-key-path-differs" };
+                    ctx.violation(sig, format!("decoding from a DocumentMut: the error ends with {last:?}, the offending value sits at {want:?} (message {msg:?})"));
+                } else {
+                    ctx.count("mismatch/key-path-exact");
+                }
+            }
+        }
+    }
+}
+
 fn multibyte_error_doc(rng: &mut Rng) -> String {
     // multi-byte characters before and at the offending position
     let mb = ["é", "ß", "日", "😀", "\u{80}", "\u{7ff}", "\u{ffff}", "\u{10000}"];
@@ -205,9 +448,14 @@ impl Check for C15 {
             ("corpus-mut".into(), 60_000 * k),
             ("nearmiss".into(), 30_000 * k),
             ("multibyte".into(), 40_000 * k),
+            ("type-mismatch".into(), 30_000 * k),
         ]
     }
     fn run(&mut self, ctx: &mut Ctx, workload: &str, index: u64, rng: &mut Rng) {
+        if workload == "type-mismatch" {
+            self.mismatch(ctx, rng);
+            return;
+        }
         let bytes: Vec<u8> = match workload {
             "corpus" => docs::corpus()[index as usize].bytes.clone(),
             "sweep" => docs::sweep_doc(index).1,
